@@ -173,7 +173,7 @@ impl FrequencySketch {
             count += (*entry & ONE_MASK).count_ones();
             *entry = (*entry >> 1) & RESET_MASK;
         }
-        self.size = (self.size >> 1) - (count >> 2);
+        self.size = (self.size >> 1).saturating_sub(count >> 2);
     }
 
     /// Returns the table index for the counter at the specified depth.
